@@ -14,6 +14,7 @@ import PgGen.C15Quirks
 import PgProofs.Gen
 import PgProofs.GenEvo
 import PgProofs.GenEvoPop
+import PgProofs.GenDedupEvo
 namespace Pg.C15
 
 /-- Generated obligation: the current source has the repaired shape of `Deduping.recover/_replay`
@@ -392,6 +393,45 @@ theorem C15_F36_counterexample_pinned :
 
 example : IsBase (.random 3 false) := Or.inr ⟨3, false, rfl⟩
 example : (runLive (f35Env .patched) f35Algo f35Run).st.nf = 4 := by decide
+
+/-! ### Deduping over Evolution (the configuration of finding F22), repaired source -/
+
+/-- `Deduping(Evolution(...))` with a Sweeping / Random initialiser, any hash function, duplicate
+limit, attempt limit, automatic reward on or off, any reproduction / update operations: for EVERY run
+the recovered instance has the outer counters, the wrapped evolution's feedback count and POPULATION
+of the uninterrupted one, and the same de-duplication memory — for every key the same rewards
+(as a multiset: the live cache lists them in feedback order, the recovered one in proposal order).
+This is the universally quantified counterpart of `C15_F22_counterexample_pinned` /
+`C15_F22b_counterexample_pinned` for the repaired source. (The wrapped evolution's *proposal* counter
+is not recoverable when duplicates were dropped — they leave no trace in the history — and is not
+claimed.) -/
+theorem C15_recover_dedup_evolution (env : Env) (hq : env.q = Quirks.patched) (init : Algo) (hb : IsBase init)
+    (sz : Option Nat) (hid md ma : Nat) (au : Bool) (run : List Event) :
+    ∃ np nf pop c c' enp enp' si ini g pend si' ini' g' pend',
+      (runLive env (.deduping (.evolution init sz) hid md ma au) run).st
+        = .deduping np nf (.evolution enp nf si ini g pop pend) c
+      ∧ recover env (.deduping (.evolution init sz) hid md ma au) (setup (.deduping (.evolution init sz) hid md ma au))
+          (runLive env (.deduping (.evolution init sz) hid md ma au) run).hist
+        = .ok (.deduping np nf (.evolution enp' nf si' ini' g' pop pend') c')
+      ∧ ∀ k, (cacheGet c k).Perm (cacheGet c' k) := by
+  obtain ⟨enp, si, ini, g, pop, pend, hst, _, hkeyed, hpop, _, _⟩ :=
+    live_dedup_evolution env init hb sz hid md ma au run
+  have hd : env.q.dedupForwardsReplay = false := by rw [hq]; rfl
+  have hg : env.q.evoInitGenBump = false := by rw [hq]; rfl
+  have ho : env.q.evoProposalOrder = false := by rw [hq]; rfl
+  obtain ⟨si', ini', g', hrecE⟩ := recover_evolution_of_ok env hg ho init hb sz
+    (runLive env (.deduping (.evolution init sz) hid md ma au) run).hist (fun e he => (hkeyed e he).1)
+  rw [hpop] at hrecE
+  refine ⟨_, _, pop, _,
+    cacheOfEntries [] (fedOf (runLive env (.deduping (.evolution init sz) hid md ma au) run).hist),
+    enp, (runLive env (.deduping (.evolution init sz) hid md ma au) run).hist.length,
+    si, ini, g, pend, si', ini', g', [], hst, ?_, ?_⟩
+  · rw [recover_dedup_patched env _ hid md ma au hd, hrecE]
+    simp only
+    rw [baseRecover_dedup_fb env _ hid md ma au hd rfl _ (fun e he => (hkeyed e he).2)]
+    simp only [Nat.zero_add]
+  · intro k
+    exact cacheOfEntries_perm _ _ ((perm_sortByFeedback _).filter _) k
 
 /-! ### The headline statement: `observe (recover (setup a) (persist run)) = observe (runLive (setup a) run)` -/
 
